@@ -98,6 +98,33 @@ def build_iban(country: str, key: str, filler: str = "distinct"):
     return bases.iban_text(country, body)
 
 
+def generated_iban_problems(index: dict, country: str, key: str):
+    """IBAN.generate fed with the listed code (as the bank code, or as the combined bank+branch code
+    where the lookup key spans both): the result must carry that code and find the bank again."""
+    c = reg.countries().get(country)
+    if c is None or not c.positions or (country, key) not in index:
+        return []
+    comps = c.lookup_components
+    if comps not in (["bank_code"], ["bank_code", "branch_code"]):
+        return []  # e.g. PL: the key contains the computed national check digit
+    aw = c.span("account_code")
+    if not aw or not c.classes:
+        return []
+    acct = "".join(reg.CLASS_CHARS[k][1] for k in c.classes[aw[0]:aw[1]])
+    k, o = lib.outcome(lambda: lib.IBAN.generate(country, key, acct))
+    if k == "lib":
+        return []  # e.g. a field of letters the menu account does not satisfy: not this check's subject
+    if k != "ok":
+        return [("generate-around-listed-bank-raises", "IBAN", (k, o))]
+    got_key = c.lookup_key(str(o)[4:])
+    if got_key != key:
+        return [("generated-IBAN-does-not-carry-the-listed-code", key, (str(o), got_key))]
+    kb, bank = lib.outcome(lambda: o.bank)
+    if kb != "ok" or bank != index[(country, key)][0]:
+        return [("bank-not-found-again-from-generated-IBAN", index[(country, key)][0], (kb, bank))]
+    return []
+
+
 def check_iban(index: dict, country: str, key: str):
     text = build_iban(country, key)
     if text is None:
@@ -105,7 +132,7 @@ def check_iban(index: dict, country: str, key: str):
     ko, o = lib.outcome(lib.IBAN, text)
     if ko != "ok":
         return [("IBAN-around-key-not-accepted", text, (ko, o))]
-    probs = []
+    probs = generated_iban_problems(index, country, key)
     es = index.get((country, key))
     exp_bank = es[0] if es else None
     kk, got_bank = lib.outcome(lambda: o.bank)
